@@ -204,6 +204,35 @@ pub fn c16_exhaustive_strings(shard: usize, shards: usize, max_len: usize, st: &
     Ok(())
 }
 
+
+/// Every Unicode scalar value, alone and substituted at each position of a valid action / square
+/// template (case mappings and digit classes of single exotic characters are where a parser that
+/// normalises its input goes wrong). Sharded by code point.
+pub fn c16_all_chars(shard: usize, shards: usize, st: &mut Stats) -> Result<(), (Fail, String)> {
+    let templates: [&str; 6] = ["a1n", "h8w", "d4s", "a1", "h8", "e"];
+    let mut buf = String::new();
+    for cp in (shard as u32..=0x10FFFF).step_by(shards) {
+        let c = match char::from_u32(cp) {
+            Some(c) => c,
+            None => continue,
+        };
+        buf.clear();
+        buf.push(c);
+        c16_string(&buf, st).map_err(|f| (f, buf.clone()))?;
+        for t in templates.iter() {
+            let tc: Vec<char> = t.chars().collect();
+            for pos in 0..tc.len() {
+                buf.clear();
+                for (i, ch) in tc.iter().enumerate() {
+                    buf.push(if i == pos { c } else { *ch });
+                }
+                c16_string(&buf, st).map_err(|f| (f, buf.clone()))?;
+            }
+        }
+    }
+    Ok(())
+}
+
 pub fn c16_long_string() -> impl Strategy<Value = String> {
     let from_alpha = prop::collection::vec(0usize..ALPHABET.len(), 0..12).prop_map(|v| v.into_iter().map(|i| ALPHABET[i]).collect::<String>());
     let near = ("[a-i`A-H][0-9][neswNESWx]", any::<u8>(), any::<char>()).prop_map(|(s, pos, c)| {
@@ -357,6 +386,37 @@ pub fn c15_text() -> impl Strategy<Value = TextCase> {
         2 => pipes,
         1 => any::<String>().prop_map(|text| TextCase { text }),
     ]
+}
+
+
+/// Every Unicode scalar value in a cell, as the side letter and as a move-number digit of an otherwise
+/// well-formed diagram: no panic, and whatever is accepted prints to a diagram that parses back to the
+/// same print. Sharded by code point.
+pub fn c15_all_chars(shard: usize, shards: usize, all_positions: bool, st: &mut Stats) -> Result<(), (Fail, String)> {
+    let base = "7g\n +-----------------+\n8| r   d           |\n7|                 |\n6|     x     x     |\n5|                 |\n4|       @         |\n3|     x     x     |\n2|         E       |\n1| R               |\n +-----------------+\n   a b c d e f g h\n";
+    for cp in (shard as u32..=0x10FFFF).step_by(shards) {
+        let c = match char::from_u32(cp) {
+            Some(c) => c,
+            None => continue,
+        };
+        let texts = [base.replace('@', &c.to_string()), base.replace('@', " ").replacen('g', &c.to_string(), 1), base.replace('@', " ").replacen('7', &format!("7{}", c), 1)];
+        for text in texts.iter().take(if all_positions || cp < 0x3000 { 3 } else { 1 }) {
+            c15_text_check(text, st).map_err(|f| (f, text.clone()))?;
+            if let Ok(Ok(g)) = guard(|| text.parse::<GameState>()) {
+                let ok = guard(|| {
+                    let p = g.to_string();
+                    match p.parse::<GameState>() {
+                        Ok(q) => q.to_string() == p,
+                        Err(_) => false,
+                    }
+                });
+                if ok != Ok(true) {
+                    return Err((Fail::new("C15:reprint", format!("the state parsed from a diagram containing {:?} (U+{:04X}) does not print to a diagram that parses back to the same print", c, cp)), text.clone()));
+                }
+            }
+        }
+    }
+    Ok(())
 }
 
 pub fn c15_text_check(text: &str, st: &mut Stats) -> Check {
